@@ -56,8 +56,8 @@ pub struct Entry {
 #[derive(Default)]
 pub struct LogState {
     pub entries: Vec<Entry>,
-    /// invocation counters per (evaluation, function, argument)
-    counts: Vec<(u64, &'static str, Value, usize)>,
+    /// invocation counters per evaluation: (function, argument, count)
+    counts: std::collections::HashMap<u64, Vec<(&'static str, Value, usize)>>,
 }
 
 #[derive(Default)]
@@ -102,13 +102,14 @@ impl UserFunction for TFn {
         let outcome = {
             let mut s = self.log.state.lock().unwrap();
             let name = self.desc.name;
-            let j = match s.counts.iter_mut().find(|(e, n, a, _)| *e == eval && *n == name && same(a, &param)) {
+            let per_eval = s.counts.entry(eval).or_default();
+            let j = match per_eval.iter_mut().find(|(n, a, _)| *n == name && same(a, &param)) {
                 Some(c) => {
-                    c.3 += 1;
-                    c.3 - 1
+                    c.2 += 1;
+                    c.2 - 1
                 }
                 None => {
-                    s.counts.push((eval, name, param.clone(), 1));
+                    per_eval.push((name, param.clone(), 1));
                     0
                 }
             };
